@@ -98,34 +98,34 @@ Proof. induction lws as [|a l IH]; cbn [map existsb]; [reflexivity|]. rewrite IH
 (* ------------------------------------------------------------------------------------------------------------------ *)
 (* A. make_compatible refines the plain rewrite *)
 
-Definition vmc_go (ml q : Z) (sr : Q) : list vtree -> list (comp_level * bool) -> result (list vtree * bool) :=
+Definition vmc_go (rp : bool) (ml q : Z) (sr : Q) : list vtree -> list (comp_level * bool) -> result (list vtree * bool) :=
   fix go (l : list vtree) (ls : list (comp_level * bool)) : result (list vtree * bool) :=
     match l, ls with
     | c :: rest, lw :: lr =>
-        bind (if comp_level_eqb (fst lw) ActionRequired then vmake_compatible_rec_w ml q sr c else Ok (c, false))
+        bind (if comp_level_eqb (fst lw) ActionRequired then vmake_compatible_rec_w rp ml q sr c else Ok (c, false))
              (fun cw => bind (go rest lr) (fun rw => Ok (fst cw :: fst rw, snd cw || snd rw)))
     | _, _ => Ok ([], false)
     end.
 
-Lemma vmc_go_cons ml q sr c rest lw lr :
-  vmc_go ml q sr (c :: rest) (lw :: lr) =
-  bind (if comp_level_eqb (fst lw) ActionRequired then vmake_compatible_rec_w ml q sr c else Ok (c, false))
-       (fun cw => bind (vmc_go ml q sr rest lr) (fun rw => Ok (fst cw :: fst rw, snd cw || snd rw))).
+Lemma vmc_go_cons rp ml q sr c rest lw lr :
+  vmc_go rp ml q sr (c :: rest) (lw :: lr) =
+  bind (if comp_level_eqb (fst lw) ActionRequired then vmake_compatible_rec_w rp ml q sr c else Ok (c, false))
+       (fun cw => bind (vmc_go rp ml q sr rest lr) (fun rw => Ok (fst cw :: fst rw, snd cw || snd rw))).
 Proof. reflexivity. Qed.
 
-Lemma vmc_go_nil_l ml q sr ls : vmc_go ml q sr [] ls = Ok ([], false).
+Lemma vmc_go_nil_l rp ml q sr ls : vmc_go rp ml q sr [] ls = Ok ([], false).
 Proof. destruct ls; reflexivity. Qed.
 
-Lemma vmc_go_nil_r ml q sr l : vmc_go ml q sr l [] = Ok ([], false).
+Lemma vmc_go_nil_r rp ml q sr l : vmc_go rp ml q sr l [] = Ok ([], false).
 Proof. destruct l; reflexivity. Qed.
 
-Lemma vmcr_leaf ml q sr r w m :
-  vmake_compatible_rec_w ml q sr (VNode r w m []) =
+Lemma vmcr_leaf rp ml q sr r w m :
+  vmake_compatible_rec_w rp ml q sr (VNode r w m []) =
   bind (to_waveform (erase (VNode r w m []))) (fun x => Ok (VNode (Fixed 1) (Some x) m [], false)).
 Proof. reflexivity. Qed.
 
-Lemma vmcr_inner ml q sr r w m c ch :
-  vmake_compatible_rec_w ml q sr (VNode r w m (c :: ch)) =
+Lemma vmcr_inner rp ml q sr r w m c ch :
+  vmake_compatible_rec_w rp ml q sr (VNode r w m (c :: ch)) =
   bind (vmc_levels ml q sr (c :: ch))
        (fun lws =>
           let wl := existsb snd lws in
@@ -135,15 +135,15 @@ Lemma vmcr_inner ml q sr r w m c ch :
               let single_run := (duration (erase (VNode r w m (c :: ch))) * sr / inject_Z (rv r))%Q in
               let keep := q_is_int (single_run / inject_Z q) && Qle_bool (inject_Z ml) single_run in
               bind (to_waveform (Node (if keep then 1 else rv r) w m (map erase (c :: ch))))
-                   (fun x => Ok (VNode (if keep then r else Fixed 1) (Some x) m [], wl))
-          else bind (vmc_go ml q sr (c :: ch) lws) (fun cw => Ok (VNode r w m (fst cw), wl || snd cw))).
+                   (fun x => Ok (VNode (if keep then r else Fixed 1) (Some x) m [], wl || (rp && existsb any_volatile (c :: ch))))
+          else bind (vmc_go rp ml q sr (c :: ch) lws) (fun cw => Ok (VNode r w m (fst cw), wl || snd cw))).
 Proof. reflexivity. Qed.
 
 Lemma erase_node r w m ch : erase (VNode r w m ch) = Node (rv r) w m (map erase ch).
 Proof. reflexivity. Qed.
 
-Lemma vmcr_refines ml q sr : forall t,
-  rmap (fun p => erase (fst p)) (vmake_compatible_rec_w ml q sr t) = make_compatible_rec ml q sr (erase t).
+Lemma vmcr_refines rp ml q sr : forall t,
+  rmap (fun p => erase (fst p)) (vmake_compatible_rec_w rp ml q sr t) = make_compatible_rec ml q sr (erase t).
 Proof.
   induction t as [r w m ch IH] using vtree_ind'. destruct ch as [|c ch].
   - rewrite vmcr_leaf, erase_node. cbn [map]. rewrite mcr_leaf.
@@ -156,34 +156,34 @@ Proof.
     + destruct (rv r =? 0); [reflexivity|].
       destruct (q_is_int _ && Qle_bool _ _);
         (destruct (to_waveform _); reflexivity).
-    + assert (forall lws, rmap (fun p => map erase (fst p)) (vmc_go ml q sr l lws)
+    + assert (forall lws, rmap (fun p => map erase (fst p)) (vmc_go rp ml q sr l lws)
                           = mc_go ml q sr (map erase l) (map fst lws)) as Hgo.
       { clear El Em c ch lws. induction IH as [|a l Ha _ IHl]; intros lws.
         - rewrite vmc_go_nil_l. destruct lws; reflexivity.
         - destruct lws as [|lw lr]; [reflexivity|]. rewrite vmc_go_cons. cbn [map]. rewrite mc_go_cons.
           rewrite <- IHl. destruct (comp_level_eqb (fst lw) ActionRequired).
-          + rewrite <- Ha. destruct (vmake_compatible_rec_w ml q sr a) as [[a' wa]|e]; [|reflexivity].
-            cbn [rmap bind fst]. destruct (vmc_go ml q sr l lr) as [[rs wr]|e]; reflexivity.
-          + cbn [bind fst]. destruct (vmc_go ml q sr l lr) as [[rs wr]|e]; reflexivity. }
-      rewrite <- Hgo. destruct (vmc_go ml q sr l lws) as [[l' wl']|e]; reflexivity.
+          + rewrite <- Ha. destruct (vmake_compatible_rec_w rp ml q sr a) as [[a' wa]|e]; [|reflexivity].
+            cbn [rmap bind fst]. destruct (vmc_go rp ml q sr l lr) as [[rs wr]|e]; reflexivity.
+          + cbn [bind fst]. destruct (vmc_go rp ml q sr l lr) as [[rs wr]|e]; reflexivity. }
+      rewrite <- Hgo. destruct (vmc_go rp ml q sr l lws) as [[l' wl']|e]; reflexivity.
 Qed.
 
-Theorem vmake_compatible_refines : forall ml q sr t,
-  rmap (fun p => erase (fst p)) (vmake_compatible_w ml q sr t) = make_compatible ml q sr (erase t).
+Theorem vmake_compatible_refines : forall rp ml q sr t,
+  rmap (fun p => erase (fst p)) (vmake_compatible_w rp ml q sr t) = make_compatible ml q sr (erase t).
 Proof.
-  intros ml q sr t. unfold vmake_compatible_w, make_compatible. rewrite <- vis_compatible_level.
+  intros rp ml q sr t. unfold vmake_compatible_w, make_compatible. rewrite <- vis_compatible_level.
   destruct (vis_compatible_w ml q sr t) as [[lv w0]|e]; [|reflexivity]. cbn [rmap bind fst snd].
   destruct lv; try reflexivity.
-  rewrite <- vmcr_refines. destruct (vmake_compatible_rec_w ml q sr t) as [[t' w']|e]; reflexivity.
+  rewrite <- (vmcr_refines rp). destruct (vmake_compatible_rec_w rp ml q sr t) as [[t' w']|e]; reflexivity.
 Qed.
 
-Theorem vmake_compatible_preserves_post : forall ml q sr t t' w, tree_ok1b (erase t) = true ->
-  vmake_compatible_w ml q sr t = Ok (t', w) ->
+Theorem vmake_compatible_preserves_post : forall rp ml q sr t t' w, tree_ok1b (erase t) = true ->
+  vmake_compatible_w rp ml q sr t = Ok (t', w) ->
   same_play (pieces (erase t')) (pieces (erase t)) /\ (duration (erase t') == duration (erase t))%Q /\
   ((0 < q)%Z -> (0 < sr)%Q -> leaves_ok ml q sr (erase t') = true).
 Proof.
-  intros ml q sr t t' w Hok H. apply (make_compatible_preserves ml q sr (erase t) (erase t') Hok).
-  rewrite <- vmake_compatible_refines, H. reflexivity.
+  intros rp ml q sr t t' w Hok H. apply (make_compatible_preserves ml q sr (erase t) (erase t') Hok).
+  rewrite <- (vmake_compatible_refines rp), H. reflexivity.
 Qed.
 
 (* ------------------------------------------------------------------------------------------------------------------ *)
@@ -197,7 +197,7 @@ Proof. reflexivity. Qed.
 Lemma vsum_cons c l : vsum (c :: l) = (vol_count c + vsum l)%nat.
 Proof. reflexivity. Qed.
 
-Lemma vmcr_count_le ml q sr : forall t t' w, vmake_compatible_rec_w ml q sr t = Ok (t', w) ->
+Lemma vmcr_count_le rp ml q sr : forall t t' w, vmake_compatible_rec_w rp ml q sr t = Ok (t', w) ->
   (vol_count t' <= vol_count t)%nat.
 Proof.
   induction t as [r w m ch IH] using vtree_ind'. intros t' w' H. destruct ch as [|c ch].
@@ -209,47 +209,47 @@ Proof.
     + destruct (rv r =? 0); [discriminate|].
       destruct (q_is_int _ && Qle_bool _ _); (destruct (to_waveform _); [|discriminate]); cbn [bind] in H;
         inversion H; subst; rewrite !vol_count_node; cbn [vsum map list_sum fold_right is_vol]; lia.
-    + assert (forall lws l' w, vmc_go ml q sr l lws = Ok (l', w) -> (vsum l' <= vsum l)%nat) as Hgo.
+    + assert (forall lws l' w, vmc_go rp ml q sr l lws = Ok (l', w) -> (vsum l' <= vsum l)%nat) as Hgo.
       { clear H lws. induction IH as [|a l Ha _ IHl]; intros lws l' w0 H.
         - rewrite vmc_go_nil_l in H. inversion H. cbn. lia.
         - destruct lws as [|lw lr]; [inversion H; cbn; lia|]. rewrite vmc_go_cons in H.
-          assert (forall a' wa, (if comp_level_eqb (fst lw) ActionRequired then vmake_compatible_rec_w ml q sr a
+          assert (forall a' wa, (if comp_level_eqb (fst lw) ActionRequired then vmake_compatible_rec_w rp ml q sr a
                                  else Ok (a, false)) = Ok (a', wa) -> (vol_count a' <= vol_count a)%nat) as Hstep.
           { intros a' wa E. destruct (comp_level_eqb (fst lw) ActionRequired); [eapply Ha; eauto|].
             inversion E; subst. lia. }
           destruct (if comp_level_eqb (fst lw) ActionRequired then _ else _) as [[a' wa]|]; [|discriminate].
-          cbn [bind fst snd] in H. destruct (vmc_go ml q sr l lr) as [[rs wr]|] eqn:Hrs; [|discriminate].
+          cbn [bind fst snd] in H. destruct (vmc_go rp ml q sr l lr) as [[rs wr]|] eqn:Hrs; [|discriminate].
           cbn [bind fst snd] in H. inversion H; subst. rewrite !vsum_cons.
           pose proof (Hstep a' wa eq_refl). pose proof (IHl lr rs wr Hrs). lia. }
-      destruct (vmc_go ml q sr l lws) as [[l' wl']|] eqn:Hl'; [|discriminate]. cbn [bind fst snd] in H.
+      destruct (vmc_go rp ml q sr l lws) as [[l' wl']|] eqn:Hl'; [|discriminate]. cbn [bind fst snd] in H.
       inversion H; subst. rewrite !vol_count_node. pose proof (Hgo lws l' wl' Hl'). lia.
 Qed.
 
-Lemma vmc_go_count_le ml q sr : forall l lws l' w, vmc_go ml q sr l lws = Ok (l', w) ->
+Lemma vmc_go_count_le rp ml q sr : forall l lws l' w, vmc_go rp ml q sr l lws = Ok (l', w) ->
   (vsum l' <= vsum l)%nat /\ (length lws = length l -> length l' = length l).
 Proof.
   induction l as [|a l IHl]; intros lws l' w0 H.
   - rewrite vmc_go_nil_l in H. inversion H. cbn. split; [lia|reflexivity].
   - destruct lws as [|lw lr]; [inversion H; cbn; split; [lia|discriminate]|]. rewrite vmc_go_cons in H.
-    assert (forall a' wa, (if comp_level_eqb (fst lw) ActionRequired then vmake_compatible_rec_w ml q sr a
+    assert (forall a' wa, (if comp_level_eqb (fst lw) ActionRequired then vmake_compatible_rec_w rp ml q sr a
                            else Ok (a, false)) = Ok (a', wa) -> (vol_count a' <= vol_count a)%nat) as Hstep.
     { intros a' wa E. destruct (comp_level_eqb (fst lw) ActionRequired); [eapply vmcr_count_le; eauto|].
       inversion E; subst. lia. }
     destruct (if comp_level_eqb (fst lw) ActionRequired then _ else _) as [[a' wa]|]; [|discriminate].
-    cbn [bind fst snd] in H. destruct (vmc_go ml q sr l lr) as [[rs wr]|] eqn:Hrs; [|discriminate].
+    cbn [bind fst snd] in H. destruct (vmc_go rp ml q sr l lr) as [[rs wr]|] eqn:Hrs; [|discriminate].
     cbn [bind fst snd] in H. inversion H; subst. rewrite !vsum_cons.
     pose proof (Hstep a' wa eq_refl). destruct (IHl lr rs wr Hrs) as [H1 H2]. split; [lia|].
     cbn [length]. intros E. rewrite H2; lia.
 Qed.
 
-Theorem vmake_compatible_count_le : forall ml q sr t t' w, vmake_compatible_w ml q sr t = Ok (t', w) ->
+Theorem vmake_compatible_count_le : forall rp ml q sr t t' w, vmake_compatible_w rp ml q sr t = Ok (t', w) ->
   (vol_count t' <= vol_count t)%nat.
 Proof.
-  intros ml q sr t t' w H. unfold vmake_compatible_w in H.
+  intros rp ml q sr t t' w H. unfold vmake_compatible_w in H.
   destruct (vis_compatible_w ml q sr t) as [[lv w0]|]; [|discriminate]. cbn [bind fst snd] in H.
   destruct lv; try discriminate.
   - inversion H; subst. lia.
-  - destruct (vmake_compatible_rec_w ml q sr t) as [[t1 w1]|] eqn:E; [|discriminate]. cbn [bind fst snd] in H.
+  - destruct (vmake_compatible_rec_w rp ml q sr t) as [[t1 w1]|] eqn:E; [|discriminate]. cbn [bind fst snd] in H.
     inversion H; subst. eapply vmcr_count_le; eauto.
 Qed.
 
@@ -279,7 +279,7 @@ Section Faithful.
     rewrite instv_novol, IH; auto.
   Qed.
 
-  Lemma vmcr_faithful ml q sr : forall t t' w, vmake_compatible_rec_w ml q sr t = Ok (t', w) ->
+  Lemma vmcr_faithful rp ml q sr : forall t t' w, vmake_compatible_rec_w rp ml q sr t = Ok (t', w) ->
     vol_count t' = vol_count t -> tree_ok1b (instv val t) = true ->
     pequiv (pieces (instv val t')) (pieces (instv val t)) /\ tree_ok1b (instv val t') = true.
   Proof.
@@ -316,7 +316,7 @@ Section Faithful.
           destruct (to_waveform_pequiv _ x Hok Hx) as [Hp Ho].
           rewrite !instv_node. cbn [map]. rewrite (instv_novol_list l Hz), !Hval, pieces_leaf, rep_list_1. split; auto;
           apply ok1b_intro_leaf; auto; lia.
-      + assert (forall lws l' w, length lws = length l -> vmc_go ml q sr l lws = Ok (l', w) -> vsum l' = vsum l ->
+      + assert (forall lws l' w, length lws = length l -> vmc_go rp ml q sr l lws = Ok (l', w) -> vsum l' = vsum l ->
                   pequiv (flat_map pieces (map (instv val) l')) (flat_map pieces (map (instv val) l)) /\
                   forallb tree_ok1b (map (instv val) l') = true /\ length l' = length l) as Hgo.
         { clear H Hne Hok Hlv lws Hcnt. induction IH as [|a l Ha _ IHl]; intros lws l' w0 Hlen H Hs.
@@ -324,9 +324,9 @@ Section Faithful.
           - destruct lws as [|lw lr]; [discriminate|]. rewrite vmc_go_cons in H.
             cbn [map forallb] in Hch. apply andb_true_iff in Hch. destruct Hch as [H1 H2]. cbn [length] in Hlen.
             destruct (if comp_level_eqb (fst lw) ActionRequired then _ else _) as [[a' wa]|] eqn:Ea; [|discriminate].
-            cbn [bind fst snd] in H. destruct (vmc_go ml q sr l lr) as [[rs wr]|] eqn:Hrs; [|discriminate].
+            cbn [bind fst snd] in H. destruct (vmc_go rp ml q sr l lr) as [[rs wr]|] eqn:Hrs; [|discriminate].
             cbn [bind fst snd] in H. inversion H; subst l' w0; clear H. rewrite !vsum_cons in Hs.
-            destruct (vmc_go_count_le ml q sr l lr rs wr Hrs) as [Hle _].
+            destruct (vmc_go_count_le rp ml q sr l lr rs wr Hrs) as [Hle _].
             assert ((vol_count a' <= vol_count a)%nat) as Hle'.
             { destruct (comp_level_eqb (fst lw) ActionRequired); [eapply vmcr_count_le; eauto|].
               inversion Ea; subst. lia. }
@@ -335,14 +335,14 @@ Section Faithful.
               inversion Ea; subst. split; [apply pequiv_refl|auto]. }
             destruct (IHl H2 lr rs wr ltac:(lia) Hrs ltac:(lia)) as (Hp' & Ho' & Hl').
             cbn [map flat_map forallb length]. rewrite Ho, Ho', Hl'. repeat split; auto. apply pequiv_app; auto. }
-        destruct (vmc_go ml q sr l lws) as [[l' wl']|] eqn:Hl'; [|discriminate]. cbn [bind fst snd] in H.
+        destruct (vmc_go rp ml q sr l lws) as [[l' wl']|] eqn:Hl'; [|discriminate]. cbn [bind fst snd] in H.
         inversion H; subst t' w'; clear H. rewrite !vol_count_node in Hcnt.
         destruct (Hgo lws l' wl' Hlv Hl' ltac:(lia)) as (Hp & Ho & Hlen).
         rewrite !instv_node, !pieces_node_none. split; [apply pequiv_rep_list; auto|].
         apply ok1b_intro_none; auto. destruct l'; [destruct l; [congruence|discriminate]|discriminate].
   Qed.
 
-  Lemma vmake_compatible_faithful_val ml q sr t t' w : vmake_compatible_w ml q sr t = Ok (t', w) ->
+  Lemma vmake_compatible_faithful_val rp ml q sr t t' w : vmake_compatible_w rp ml q sr t = Ok (t', w) ->
     vol_count t' = vol_count t -> tree_ok1b (instv val t) = true ->
     same_play (pieces (instv val t')) (pieces (instv val t)) /\ (duration (instv val t') == duration (instv val t))%Q.
   Proof.
@@ -352,7 +352,7 @@ Section Faithful.
       destruct (vis_compatible_w ml q sr t) as [[lv w0]|]; [|discriminate]. cbn [bind fst snd] in H.
       destruct lv; try discriminate.
       - inversion H; subst. split; [apply pequiv_refl|auto].
-      - destruct (vmake_compatible_rec_w ml q sr t) as [[t1 w1]|] eqn:E; [|discriminate]. cbn [bind fst snd] in H.
+      - destruct (vmake_compatible_rec_w rp ml q sr t) as [[t1 w1]|] eqn:E; [|discriminate]. cbn [bind fst snd] in H.
         inversion H; subst. eapply vmcr_faithful; eauto. }
     split; [apply pequiv_sound; auto|].
     rewrite (duration_total _ (tree_ok1b_okb _ Hok)), (duration_total _ (tree_ok1b_okb _ Ho)).
@@ -360,12 +360,12 @@ Section Faithful.
   Qed.
 End Faithful.
 
-Theorem vmake_compatible_faithful : forall ml q sr t t' w env, vmake_compatible_w ml q sr t = Ok (t', w) ->
+Theorem vmake_compatible_faithful : forall rp ml q sr t t' w env, vmake_compatible_w rp ml q sr t = Ok (t', w) ->
   vol_count t' = vol_count t -> tree_ok1b (inst env t) = true ->
   same_play (pieces (inst env t')) (pieces (inst env t)) /\ (duration (inst env t') == duration (inst env t))%Q.
 Proof.
-  intros ml q sr t t' w env H Hc Hok. rewrite !inst_instv in *.
-  apply (vmake_compatible_faithful_val (rv_env env) (fun n => eq_refl) ml q sr t t' w H Hc Hok).
+  intros rp ml q sr t t' w env H Hc Hok. rewrite !inst_instv in *.
+  apply (vmake_compatible_faithful_val (rv_env env) (fun n => eq_refl) rp ml q sr t t' w H Hc Hok).
 Qed.
 
 (* ------------------------------------------------------------------------------------------------------------------ *)
@@ -379,7 +379,7 @@ Definition ex_vmc_silent : vtree :=
                            VNode (Fixed 1) (Some (WAtom 1 8)) [] []].
 
 Theorem vmake_compatible_silent_freeze_refuted : exists t t' env,
-  vmake_compatible_w 16 4 1 t = Ok (t', false) /\ any_volatile t = true /\ any_volatile t' = false /\
+  vmake_compatible_w false 16 4 1 t = Ok (t', false) /\ any_volatile t = true /\ any_volatile t' = false /\
   consistent (fun _ => 2) t = true /\ tree_ok1b (inst env t) = true /\
   ~ (duration (inst env t') == duration (inst env t))%Q.
 Proof.
@@ -388,7 +388,7 @@ Proof.
   vm_compute. intros H. discriminate H.
 Qed.
 
-Example ex_vmc_silent_loses : vmc_loses_count 16 4 1 ex_vmc_silent = true.
+Example ex_vmc_silent_loses : vmc_loses_count false 16 4 1 ex_vmc_silent = true.
 Proof. vm_compute. reflexivity. Qed.
 
 (* a volatile root whose body is a valid waveform keeps its definition — and the code warns nevertheless *)
@@ -396,22 +396,205 @@ Definition ex_vmc_keep : vtree :=
   VNode (Volatile 3 (VVar 0)) None [] [VNode (Fixed 1) (Some (WAtom 0 4)) [] [];
                                        VNode (Fixed 1) (Some (WAtom 1 4)) [] []].
 
-Example ex_vmc_keep_keeps : vmc_loses_count 8 8 1 ex_vmc_keep = false.
+Example ex_vmc_keep_keeps : vmc_loses_count false 8 8 1 ex_vmc_keep = false.
 Proof. vm_compute. reflexivity. Qed.
 
-Example ex_vmc_keep_warns : exists t', vmake_compatible_w 8 8 1 ex_vmc_keep = Ok (t', true) /\
+Example ex_vmc_keep_warns : exists t', vmake_compatible_w false 8 8 1 ex_vmc_keep = Ok (t', true) /\
   v_rep t' = Volatile 3 (VVar 0) /\ vol_count t' = vol_count ex_vmc_keep.
 Proof. eexists. split; [vm_compute; reflexivity|]. split; reflexivity. Qed.
 
 (* non-vacuity of vmake_compatible_preserves_post / vmake_compatible_faithful *)
 Example ex_vmc_preserves_nonvacuous : exists t' w,
-  tree_ok1b (erase ex_vmc_silent) = true /\ vmake_compatible_w 16 4 1 ex_vmc_silent = Ok (t', w).
+  tree_ok1b (erase ex_vmc_silent) = true /\ vmake_compatible_w false 16 4 1 ex_vmc_silent = Ok (t', w).
 Proof. eexists. eexists. split; [vm_compute; reflexivity|]. vm_compute. reflexivity. Qed.
 
 Example ex_vmc_faithful_nonvacuous : exists t' w,
-  vmake_compatible_w 8 8 1 ex_vmc_keep = Ok (t', w) /\ vol_count t' = vol_count ex_vmc_keep /\
+  vmake_compatible_w false 8 8 1 ex_vmc_keep = Ok (t', w) /\ vol_count t' = vol_count ex_vmc_keep /\
   tree_ok1b (inst (fun _ => 5) ex_vmc_keep) = true /\ any_volatile ex_vmc_keep = true.
 Proof. eexists. eexists. split; [vm_compute; reflexivity|]. repeat split; vm_compute; reflexivity. Qed.
+
+(* ------------------------------------------------------------------------------------------------------------------ *)
+(* B'. the repaired _make_compatible ([rp = true]): the repair changes the warning flag only, a warning of the code as it
+   was is still a warning, and "no VolatileModificationWarning" now means "no volatile count lost" *)
+
+Lemma comp_level_eqb_eq a b : comp_level_eqb a b = true -> a = b.
+Proof. destruct a, b; cbn; intros H; try reflexivity; discriminate H. Qed.
+
+Lemma vmcr_repair_only_warns ml q sr : forall t,
+  match vmake_compatible_rec_w true ml q sr t, vmake_compatible_rec_w false ml q sr t with
+  | Ok (t1, w1), Ok (t0, w0) => t1 = t0 /\ (w0 = true -> w1 = true)
+  | Err e1, Err e0 => e1 = e0
+  | _, _ => False
+  end.
+Proof.
+  induction t as [r w m ch IH] using vtree_ind'. destruct ch as [|c ch].
+  - rewrite !vmcr_leaf. destruct (to_waveform _); cbn [bind]; auto.
+  - rewrite !vmcr_inner. remember (c :: ch) as l eqn:El. clear El c ch.
+    destruct (vmc_levels ml q sr l) as [lws|e]; cbn [bind]; [|reflexivity]. cbv zeta.
+    destruct (existsb (fun lw => is_incompatible (fst lw)) lws).
+    + destruct (rv r =? 0); [reflexivity|].
+      destruct (q_is_int _ && Qle_bool _ _); (destruct (to_waveform _); cbn [bind]; [|reflexivity]);
+        (split; [reflexivity|]); cbn [andb]; rewrite orb_false_r; intros Hw; rewrite Hw; reflexivity.
+    + assert (forall lws, match vmc_go true ml q sr l lws, vmc_go false ml q sr l lws with
+                          | Ok (l1, w1), Ok (l0, w0) => l1 = l0 /\ (w0 = true -> w1 = true)
+                          | Err e1, Err e0 => e1 = e0
+                          | _, _ => False
+                          end) as Hgo.
+      { clear lws. induction IH as [|a l Ha _ IHl]; intros lws.
+        - rewrite !vmc_go_nil_l. auto.
+        - destruct lws as [|lw lr]; [cbn; auto|]. rewrite !vmc_go_cons. specialize (IHl lr).
+          destruct (comp_level_eqb (fst lw) ActionRequired).
+          + destruct (vmake_compatible_rec_w true ml q sr a) as [[a1 wa1]|e1],
+                     (vmake_compatible_rec_w false ml q sr a) as [[a0 wa0]|e0]; try contradiction; cbn [bind fst snd]; auto.
+            destruct Ha as [-> Hwa].
+            destruct (vmc_go true ml q sr l lr) as [[r1 wr1]|], (vmc_go false ml q sr l lr) as [[r0 wr0]|];
+              try contradiction; cbn [bind fst snd]; auto.
+            destruct IHl as [-> Hwr]. split; [reflexivity|]. intros H. apply orb_true_iff in H. apply orb_true_iff.
+            destruct H; [left|right]; auto.
+          + cbn [bind fst snd].
+            destruct (vmc_go true ml q sr l lr) as [[r1 wr1]|], (vmc_go false ml q sr l lr) as [[r0 wr0]|];
+              try contradiction; cbn [bind fst snd]; auto.
+            destruct IHl as [-> Hwr]. split; [reflexivity|]. cbn [orb]. exact Hwr. }
+      specialize (Hgo lws).
+      destruct (vmc_go true ml q sr l lws) as [[l1 w1]|], (vmc_go false ml q sr l lws) as [[l0 w0]|];
+        try contradiction; cbn [bind fst snd]; auto.
+      destruct Hgo as [-> Hw]. split; [reflexivity|]. intros H. apply orb_true_iff in H. apply orb_true_iff.
+      destruct H; [left|right]; auto.
+Qed.
+
+Theorem vmake_compatible_repair_only_warns : forall ml q sr t,
+  match vmake_compatible_w true ml q sr t, vmake_compatible_w false ml q sr t with
+  | Ok (t1, w1), Ok (t0, w0) => t1 = t0 /\ (w0 = true -> w1 = true)
+  | Err e1, Err e0 => e1 = e0
+  | _, _ => False
+  end.
+Proof.
+  intros ml q sr t. unfold vmake_compatible_w.
+  destruct (vis_compatible_w ml q sr t) as [[lv w0]|e]; cbn [bind fst snd]; [|reflexivity].
+  destruct lv; auto.
+  pose proof (vmcr_repair_only_warns ml q sr t) as H.
+  destruct (vmake_compatible_rec_w true ml q sr t) as [[t1 w1]|], (vmake_compatible_rec_w false ml q sr t) as [[t0 w0']|];
+    try contradiction; cbn [bind fst snd]; auto.
+  destruct H as [-> Hw]. split; [reflexivity|]. intros H. apply orb_true_iff in H. apply orb_true_iff.
+  destruct H; [left|right]; auto.
+Qed.
+
+Lemma any_volatile_node r w m ch : any_volatile (VNode r w m ch) = is_vol r || existsb any_volatile ch.
+Proof. reflexivity. Qed.
+
+Lemma novol_count : forall t, any_volatile t = false -> vol_count t = 0%nat.
+Proof.
+  induction t as [r w m ch IH] using vtree_ind'. rewrite any_volatile_node, vol_count_node. intros H.
+  apply orb_false_iff in H as [Hr Hch]. rewrite Hr. cbn [Nat.add].
+  induction IH as [|c l Hc _ IHl]; [reflexivity|]. cbn [existsb] in Hch. apply orb_false_iff in Hch as [H1 H2].
+  rewrite vsum_cons, (Hc H1), (IHl H2). reflexivity.
+Qed.
+
+Lemma novol_vsum l : existsb any_volatile l = false -> vsum l = 0%nat.
+Proof.
+  induction l as [|c l IH]; [reflexivity|]. cbn [existsb]. intros H. apply orb_false_iff in H as [H1 H2].
+  rewrite vsum_cons, (novol_count _ H1), (IH H2). reflexivity.
+Qed.
+
+(* _is_compatible answers action_required for an inner node only after it has reported the node's own volatility *)
+Lemma vic_go_action_flag ml q sr r : forall l w0, vic_go ml q sr r l = Ok (ActionRequired, w0) ->
+  is_vol r = true -> w0 = true.
+Proof.
+  induction l as [|c l IH]; intros w0 H Hr; [discriminate H|]. rewrite vic_go_cons in H.
+  destruct (vis_compatible_w ml q sr c) as [[lv wc]|]; [|discriminate]. cbn [bind fst snd] in H.
+  destruct (comp_level_eqb lv Compatible).
+  - destruct (vic_go ml q sr r l) as [[lv' w']|]; [|discriminate]. cbn [bind fst snd] in H. inversion H; subst.
+    rewrite (IH w' eq_refl Hr). apply orb_true_r.
+  - inversion H; subst. rewrite Hr. apply orb_true_r.
+Qed.
+
+Lemma vis_action_flag ml q sr t w0 : vis_compatible_w ml q sr t = Ok (ActionRequired, w0) ->
+  is_vol (v_rep t) = true -> w0 = true.
+Proof.
+  rewrite vis_compatible_w_eq. cbv zeta. intros H Hr.
+  destruct (negb (q_is_int _)); [discriminate|]. destruct (Qle_bool _ _); [|discriminate].
+  destruct (q =? 0); [discriminate|]. destruct (0 <? _); [discriminate|].
+  destruct (v_is_leaf t).
+  - destruct (_ || _); [|discriminate]. inversion H; subst. exact Hr.
+  - eapply vic_go_action_flag; eauto.
+Qed.
+
+Lemma vmcr_repaired_keeps ml q sr : forall t w0 t' w,
+  vis_compatible_w ml q sr t = Ok (ActionRequired, w0) ->
+  vmake_compatible_rec_w true ml q sr t = Ok (t', w) -> w0 || w = false -> vol_count t' = vol_count t.
+Proof.
+  induction t as [r w m ch IH] using vtree_ind'. intros w0 t' w' Hv H Hw.
+  apply orb_false_iff in Hw as [Hw0 Hw'].
+  assert (is_vol r = false) as Hr.
+  { destruct (is_vol r) eqn:E; [|reflexivity]. rewrite (vis_action_flag _ _ _ _ _ Hv E) in Hw0. discriminate. }
+  destruct ch as [|c ch].
+  - rewrite vmcr_leaf in H. destruct (to_waveform _); [|discriminate]. cbn [bind] in H. inversion H; subst.
+    rewrite !vol_count_node, Hr. reflexivity.
+  - rewrite vmcr_inner in H. remember (c :: ch) as l eqn:El. clear El c ch Hv.
+    destruct (vmc_levels ml q sr l) as [lws|] eqn:Hlv; [|discriminate]. cbn [bind] in H. cbv zeta in H.
+    destruct (existsb (fun lw => is_incompatible (fst lw)) lws).
+    + destruct (rv r =? 0); [discriminate|].
+      destruct (q_is_int _ && Qle_bool _ _); (destruct (to_waveform _); [|discriminate]); cbn [bind] in H;
+        inversion H as [[Ht Hx]]; subst t'; rewrite <- Hx in Hw'; cbn [andb] in Hw'; apply orb_false_iff in Hw' as [_ Hnv];
+        rewrite !vol_count_node, (novol_vsum _ Hnv); cbn [vsum map list_sum fold_right is_vol]; rewrite ?Hr; reflexivity.
+    + destruct (vmc_go true ml q sr l lws) as [[l' wl']|] eqn:Hl'; [|discriminate]. cbn [bind fst snd] in H.
+      inversion H as [[Ht Hx]]; subst t'; clear H. rewrite <- Hx in Hw'. apply orb_false_iff in Hw' as [Hwl Hwl'].
+      rewrite !vol_count_node. f_equal. subst wl'. clear Hr Hw0 w0 Hx.
+      revert lws l' Hlv Hwl Hl'. induction IH as [|a l Ha _ IHl]; intros lws l' Hlv Hwl Hl'.
+      * rewrite vmc_go_nil_l in Hl'. inversion Hl'. reflexivity.
+      * rewrite vmc_levels_cons in Hlv. destruct (vis_compatible_w ml q sr a) as [[lv wa]|] eqn:Hva; [|discriminate].
+        cbn [bind] in Hlv. destruct (vmc_levels ml q sr l) as [lr|] eqn:Hlr; [|discriminate]. cbn [bind] in Hlv.
+        inversion Hlv; subst lws; clear Hlv. cbn [existsb snd] in Hwl. apply orb_false_iff in Hwl as [Hwa Hwr].
+        rewrite vmc_go_cons in Hl'. cbn [fst] in Hl'.
+        destruct (comp_level_eqb lv ActionRequired) eqn:Elv.
+        -- apply comp_level_eqb_eq in Elv. subst lv.
+           destruct (vmake_compatible_rec_w true ml q sr a) as [[a' wa']|] eqn:Ea; [|discriminate].
+           cbn [bind fst snd] in Hl'. destruct (vmc_go true ml q sr l lr) as [[rs wr]|] eqn:Hrs; [|discriminate].
+           cbn [bind fst snd] in Hl'. inversion Hl' as [[Hl1 Hl2]]; subst l'. apply orb_false_iff in Hl2 as [Hwa' Hwr'].
+           subst wr. rewrite !vsum_cons, (IHl lr rs eq_refl Hwr Hrs).
+           rewrite (Ha wa a' wa' eq_refl eq_refl); [reflexivity|]. rewrite Hwa, Hwa'. reflexivity.
+        -- cbn [bind fst snd] in Hl'. destruct (vmc_go true ml q sr l lr) as [[rs wr]|] eqn:Hrs; [|discriminate].
+           cbn [bind fst snd] in Hl'. inversion Hl' as [[Hl1 Hl2]]; subst l'. cbn [orb] in Hl2. subst wr.
+           rewrite !vsum_cons, (IHl lr rs eq_refl Hwr Hrs). reflexivity.
+Qed.
+
+(* the repaired code: no VolatileModificationWarning => every volatile count is still there ... *)
+Theorem vmake_compatible_repaired_keeps_counts : forall ml q sr t t',
+  vmake_compatible_w true ml q sr t = Ok (t', false) -> vol_count t' = vol_count t.
+Proof.
+  intros ml q sr t t' H. unfold vmake_compatible_w in H.
+  destruct (vis_compatible_w ml q sr t) as [[lv w0]|] eqn:Hv; [|discriminate]. cbn [bind fst snd] in H.
+  destruct lv; try discriminate.
+  - inversion H; subst. reflexivity.
+  - destruct (vmake_compatible_rec_w true ml q sr t) as [[t1 w1]|] eqn:E; [|discriminate]. cbn [bind fst snd] in H.
+    inversion H; subst. eapply vmcr_repaired_keeps; eauto.
+Qed.
+
+(* ... hence the rewritten program follows the volatile parameters under every re-evaluation *)
+Theorem vmake_compatible_repaired_follows : forall ml q sr t t' env,
+  vmake_compatible_w true ml q sr t = Ok (t', false) -> tree_ok1b (inst env t) = true ->
+  same_play (pieces (inst env t')) (pieces (inst env t)) /\ (duration (inst env t') == duration (inst env t))%Q.
+Proof.
+  intros ml q sr t t' env H Hok.
+  exact (vmake_compatible_faithful true ml q sr t t' false env H (vmake_compatible_repaired_keeps_counts _ _ _ _ _ H) Hok).
+Qed.
+
+(* the witness of the silent freeze is warned about by the repaired code; the same tree comes out *)
+Example ex_vmc_silent_repaired_warns : exists t',
+  vmake_compatible_w true 16 4 1 ex_vmc_silent = Ok (t', true) /\ vmake_compatible_w false 16 4 1 ex_vmc_silent = Ok (t', false).
+Proof. eexists. split; vm_compute; reflexivity. Qed.
+
+(* non-vacuity of vmake_compatible_repaired_follows: a volatile sibling next to a merged fixed block stays volatile,
+   no warning, and the hypothesis tree_ok1b holds at another value of the parameter *)
+Definition ex_vmc_sibling : vtree :=
+  VNode (Fixed 1) None []
+    [VNode (Volatile 2 (VVar 0)) None [] [VNode (Fixed 1) (Some (WAtom 0 8)) [] []; VNode (Fixed 1) (Some (WAtom 1 8)) [] []];
+     VNode (Fixed 1) None [] [VNode (Fixed 1) (Some (WAtom 2 4)) [] []; VNode (Fixed 1) (Some (WAtom 3 12)) [] []]].
+
+Example ex_vmc_repaired_nonvacuous : exists t',
+  vmake_compatible_w true 8 8 1 ex_vmc_sibling = Ok (t', false) /\ any_volatile t' = true /\
+  erase t' <> erase ex_vmc_sibling /\ tree_ok1b (inst (fun _ => 5) ex_vmc_sibling) = true.
+Proof. eexists. split; [vm_compute; reflexivity|]. repeat split; try (vm_compute; reflexivity). vm_compute. discriminate. Qed.
 
 (* ------------------------------------------------------------------------------------------------------------------ *)
 (* C. roll_constant_waveforms commutes with every multiplicative valuation *)
